@@ -118,22 +118,28 @@ impl TypeRef {
         }
     }
 
-    pub(crate) fn is_subtype(&self, sub: &TypeRef) -> bool {
-        fn is_subtype(cur: &TypeRef, sub: &TypeRef) -> bool {
-            match (cur, sub) {
-                (TypeRef::NonNull(super_type), TypeRef::NonNull(sub_type)) => {
-                    is_subtype(&super_type, &sub_type)
-                }
-                (_, TypeRef::NonNull(sub_type)) => is_subtype(cur, &sub_type),
-                (TypeRef::Named(super_type), TypeRef::Named(sub_type)) => super_type == sub_type,
-                (TypeRef::List(super_type), TypeRef::List(sub_type)) => {
-                    is_subtype(super_type, sub_type)
-                }
-                _ => false,
+    /// Returns `true` if `sub` is equal to or a sub-type of this type.
+    ///
+    /// `is_named_subtype(super_type, sub_type)` tells whether a named type is a
+    /// member of a union or an implementation of an interface.
+    pub(crate) fn is_subtype(
+        &self,
+        sub: &TypeRef,
+        is_named_subtype: &impl Fn(&str, &str) -> bool,
+    ) -> bool {
+        match (self, sub) {
+            (TypeRef::NonNull(super_type), TypeRef::NonNull(sub_type)) => {
+                super_type.is_subtype(sub_type, is_named_subtype)
             }
+            (_, TypeRef::NonNull(sub_type)) => self.is_subtype(sub_type, is_named_subtype),
+            (TypeRef::Named(super_type), TypeRef::Named(sub_type)) => {
+                super_type == sub_type || is_named_subtype(super_type, sub_type)
+            }
+            (TypeRef::List(super_type), TypeRef::List(sub_type)) => {
+                super_type.is_subtype(sub_type, is_named_subtype)
+            }
+            _ => false,
         }
-
-        is_subtype(self, sub)
     }
 }
 
